@@ -140,6 +140,12 @@ func (l *s1Log) forceTrigger() {
 	}
 }
 
+func (l *s1Log) len() int {
+	l.mu.Lock()
+	defer l.mu.Unlock()
+	return len(l.ev)
+}
+
 func (l *s1Log) snapshot() []s1Ev {
 	l.mu.Lock()
 	defer l.mu.Unlock()
@@ -267,7 +273,7 @@ func s1Case(c *rep.Case, r *rep.Reporter, ys yieldStats, p *prng.R, sc s1Scenari
 		// An Add has not returned. Logical stuck condition: everything inside the
 		// wheel is parked (e.g. Close has returned, the wheel's goroutine is gone
 		// and nobody will ever receive).
-		parked, dump := stuckAnalysis("internal/target/queue.(*TimeWheel)", "queue.(*TimeWheel).Add")
+		parked, dump := stuckAnalysis("internal/target/queue.(*TimeWheel)", "queue.(*TimeWheel).Add", lg.len)
 		if parked {
 			c.Violation("S1/add-never-returns", "TimeWheel.Add blocks forever: every goroutine inside the time wheel is parked and none can wake the producer",
 				map[string]any{"scenario": sc, "plan": plan, "events": lg.snapshot(), "goroutines": dump})
@@ -284,7 +290,7 @@ func s1Case(c *rep.Case, r *rep.Reporter, ys yieldStats, p *prng.R, sc s1Scenari
 			waitFor = lg.trig
 		}
 		if sc.CloseKind != "start" && !waitDone(waitFor) {
-			parked, dump := stuckAnalysis("internal/target/queue.(*TimeWheel)", "queue.(*TimeWheel).tick")
+			parked, dump := stuckAnalysis("internal/target/queue.(*TimeWheel)", "queue.(*TimeWheel).tick", lg.len)
 			if parked {
 				c.Violation("S1/entry-never-dispatched", "every Add returned, Close was not called, the wheel's goroutine is parked and an entry whose time has passed long ago was not dispatched",
 					map[string]any{"scenario": sc, "plan": plan, "events": lg.snapshot(), "goroutines": dump})
@@ -299,7 +305,7 @@ func s1Case(c *rep.Case, r *rep.Reporter, ys yieldStats, p *prng.R, sc s1Scenari
 		}
 	}
 	if closeStarted && !waitDone(closeDone) {
-		parked, dump := stuckAnalysis("internal/target/queue.(*TimeWheel)", "queue.(*TimeWheel).Close")
+		parked, dump := stuckAnalysis("internal/target/queue.(*TimeWheel)", "queue.(*TimeWheel).Close", lg.len)
 		if parked {
 			c.Violation("S1/close-never-returns", "TimeWheel.Close blocks forever: every goroutine inside the time wheel is parked",
 				map[string]any{"scenario": sc, "plan": plan, "events": lg.snapshot(), "goroutines": dump})
